@@ -12,6 +12,14 @@ open C32_Lines
 open C32_Trace
 open GoSem
 
+module Str_split = struct
+  (* the part of s after the first occurrence of sep *)
+  let after s sep =
+    let n = String.length s and k = String.length sep in
+    let rec go i = if i + k > n then None else if String.sub s i k = sep then Some (String.sub s (i + k) (n - i - k)) else go (i + 1) in
+    go 0
+end
+
 let z = Zio.z_of_string
 let zs = Zio.string_of_z
 
@@ -23,12 +31,14 @@ let op_of tok =
       | _ -> failwith "op")
   | 'b' -> OpAddBytes (z (String.sub tok 1 (String.length tok - 1)))
   | 'r' -> OpRemove (z (String.sub tok 1 (String.length tok - 1)))
+  | 'p' -> OpPrologue (z (String.sub tok 1 (String.length tok - 1)))
   | _ -> failwith ("op " ^ tok)
 
 let in_domain = function
   | OpAdd (_, b) -> Zio.int_of_z b >= 1
   | OpAddBytes b -> Zio.int_of_z b >= 0
   | OpRemove _ -> true
+  | OpPrologue b -> Zio.int_of_z b >= 0
 
 let rle input =
   let ops = List.map op_of (Zio.split_sp input) in
@@ -53,6 +63,48 @@ let rle input =
           | None -> oracle := "0@nospec"
           | Some ls -> if zs (spec_line ls (Zio.z_of_int i)) <> zs got then oracle := Printf.sprintf "0@%d" i
       done;
+      Buffer.add_string b (" o=" ^ !oracle);
+      Buffer.contents b
+
+(* "lines <meta> :: <ops>": the operations reconstructed from a compiled function (one `a` per
+   instruction after the prologue, then `p<k>` for a PREP_LOCALS prologue of k bytes).  The model
+   builds the table; observable as printed by harness/cmd/c32/lines.go:
+   "ok n=<total> q=<run-length coded get_line_number i for i=-1..M+1> o=1", M = sum of all sizes.
+   o=1 states what the theorems give: the table accounts for exactly M bytes and (checked against
+   run_spec when M <= 4000, the plain list being quadratic to build) answers like the plain list. *)
+let lines input =
+  let ops_s =
+    match Str_split.after input " ::" with Some r -> String.trim r | None -> failwith "lines: no ::" in
+  let ops = if ops_s = "" then [] else List.rev (List.rev_map op_of (Zio.split_sp ops_s)) in
+  let m =
+    List.fold_left
+      (fun a o -> match o with OpAdd (_, b) | OpAddBytes b | OpPrologue b -> a + Zio.int_of_z b | OpRemove _ -> a)
+      0 ops in
+  match run_impl ops with
+  | Panic c -> "panic " ^ zs c
+  | Err c -> "err " ^ zs c
+  | Fatal c -> "fatal " ^ zs c
+  | Ok t ->
+      let total = Zio.int_of_z (total_bytes t) in
+      let spec = if m <= 4000 then (match run_spec ops with Ok ls -> Some ls | _ -> None) else None in
+      let oracle = ref (if total = m && List.for_all in_domain ops then "1" else "0:total") in
+      let b = Buffer.create 256 in
+      Buffer.add_string b (Printf.sprintf "ok n=%d q=" total);
+      let cur = ref "" and cnt = ref 0 and first = ref true in
+      let flush () =
+        if !cnt > 0 then begin
+          if not !first then Buffer.add_char b ',';
+          first := false;
+          Buffer.add_string b (!cur ^ "*" ^ string_of_int !cnt)
+        end in
+      for i = -1 to m + 1 do
+        let got = zs (get_line_number t (Zio.z_of_int i)) in
+        (match spec with
+         | Some ls -> if zs (spec_line ls (Zio.z_of_int i)) <> got && !oracle = "1" then oracle := Printf.sprintf "0:spec@%d" i
+         | None -> ());
+        if got = !cur then incr cnt else begin flush (); cur := got; cnt := 1 end
+      done;
+      flush ();
       Buffer.add_string b (" o=" ^ !oracle);
       Buffer.contents b
 
@@ -92,6 +144,7 @@ let () =
             try
               if String.length input > 6 && String.sub input 0 6 = "trace " then
                 trace (String.sub input 6 (String.length input - 6))
+              else if String.length input > 6 && String.sub input 0 6 = "lines " then lines input
               else rle input
             with e -> "driver-error " ^ Printexc.to_string e
           in
